@@ -590,6 +590,11 @@ def make_history(rng, cfg, nb, ctx=None):
       continue
     bundles.append(b)
     results.append(res)
+    if not res['after']:
+      # model scope: the table is never empty at the end of a bundle (see ASSUMPTIONS); the history ends here
+      if ctx is not None:
+        ctx.bump('history_ended_on_empty_table')
+      break
   return bundles, results
 
 
@@ -768,6 +773,10 @@ TRUSTED = ['Model/Trigger.v [mech_*]: hand-written model of the four code sites,
            'for every setting of the switches']
 ASSUMPTIONS = ['kernel scope: one table, int cell values, formula columns reading one data column of the same row, '
                'trigger column configuration fixed during the history, no lookups/references in dependencies',
+               'model scope: the table is not empty at the end of a bundle that contained a schema action (a formula '
+               'column whose dependency edges were cleared re-learns them only by being evaluated on some row; with '
+               'no rows it stays without edges, which the model does not track; generated histories end when the '
+               'table becomes empty)',
                'replayed doc actions (undo) are read as explicit values for every cell they carry',
                'the sentence leaves open (and the theorems say so: must <= fired <= may): a dependency written '
                'with the value it has, recomputed to the value it has, or a formula column written by a replayed '
